@@ -220,8 +220,10 @@ def snapshot_fresh(g, attr, d, at):
 
 def _getter_expr(g, call):
     """`self.m(a, b)` where m (the same function for every concrete class)
-    consists of `return <expr>` only: that expression, with the parameters
-    replaced by the arguments"""
+    consists of `return <expr>`, possibly after single-assignment locals
+    bound to call-free expressions (`d = task['description']`): that
+    expression, with the parameters replaced by the arguments and the locals
+    by their values.  A static method has no receiver parameter."""
     if not (isinstance(call.func, ast.Attribute) and
             isinstance(call.func.value, ast.Name) and
             call.func.value.id == 'self'):
@@ -238,14 +240,40 @@ def _getter_expr(g, call):
             [1 for K in concretes if prog.resolve_call(f, call, K)]):
         return None
     callee = list(callees.values())[0]
-    ret = first_stmt(callee.node.body)
-    if not isinstance(ret, ast.Return) or ret.value is None or \
-            [s for s in callee.node.body if not is_quiet_stmt(s)] != [ret]:
+    body = [s for s in callee.node.body if not is_quiet_stmt(s)]
+    ret = body[-1] if body else None
+    if not isinstance(ret, ast.Return) or ret.value is None:
         return None
     a = callee.node.args
     if a.vararg or a.kwarg or a.kwonlyargs or a.posonlyargs:
         return None
-    params = [x.arg for x in a.args][1:]
+    deco = [dotted(d) for d in callee.node.decorator_list]
+    if [d for d in deco if d not in ('staticmethod', 'classmethod')]:
+        return None
+    params = [x.arg for x in a.args]
+    if 'staticmethod' not in deco:
+        params = params[1:]
+    lets = []
+    for s in body[:-1]:
+        # straight-line locals, each bound once to an expression without
+        # calls: reading them is reading the expression
+        if not (isinstance(s, ast.Assign) and len(s.targets) == 1 and
+                isinstance(s.targets[0], ast.Name)):
+            return None
+        nm = s.targets[0].id
+        if nm in params or nm in [k for k, _ in lets] or nm == 'self' or \
+                any(isinstance(x, (ast.Call, ast.Lambda, ast.NamedExpr,
+                                   ast.Await, ast.Yield, ast.ListComp,
+                                   ast.DictComp, ast.SetComp,
+                                   ast.GeneratorExp, ast.Dict, ast.List,
+                                   ast.Set))
+                    for x in ast.walk(s.value)):
+            return None
+        lets.append((nm, s.value))
+    if lets and any(isinstance(x, ast.Name) and x.id in params and
+                    isinstance(x.ctx, (ast.Store, ast.Del))
+                    for x in ast.walk(callee.node)):
+        return None
     if len(call.args) > len(params) or any(isinstance(x, ast.Starred)
                                            for x in call.args):
         return None
@@ -263,20 +291,24 @@ def _getter_expr(g, call):
     local = {x.id for x in ast.walk(g.func) if isinstance(x, ast.Name) and
              isinstance(x.ctx, (ast.Store, ast.Del))}
     local |= {x.arg for x in g.func.args.args}
-    for x in ast.walk(ret.value):
-        if isinstance(x, (ast.Lambda, ast.NamedExpr, ast.Await, ast.Yield,
-                          ast.ListComp, ast.DictComp, ast.SetComp,
-                          ast.GeneratorExp)):
-            return None
-        if isinstance(x, ast.Name) and x.id not in bind and x.id != 'self' \
-                and x.id in local:
-            return None             # a global of the callee, shadowed here
+    letnames = {k for k, _ in lets}
+    for v in [v for _, v in lets] + [ret.value]:
+        for x in ast.walk(v):
+            if isinstance(x, (ast.Lambda, ast.NamedExpr, ast.Await, ast.Yield,
+                              ast.ListComp, ast.DictComp, ast.SetComp,
+                              ast.GeneratorExp)):
+                return None
+            if isinstance(x, ast.Name) and x.id not in bind and \
+                    x.id != 'self' and x.id not in letnames and x.id in local:
+                return None         # a global of the callee, shadowed here
 
     class S(ast.NodeTransformer):
         def visit_Name(self, n):
             if n.id in bind and isinstance(n.ctx, ast.Load):
                 return copy.deepcopy(bind[n.id])
             return n
+    for nm, v in lets:
+        bind[nm] = S().visit(copy.deepcopy(v))
     return S().visit(copy.deepcopy(ret.value))
 
 
@@ -1313,17 +1345,22 @@ def placeholder_writers(prog):
     return out
 
 
-def _pilot_key_read(v):
-    """task's own pilot: X.get('pilot') / X['pilot']  ->  X name"""
+def _key_read(v, key):
+    """X.get(key) / X[key] for a local X  ->  the name X"""
     if isinstance(v, ast.Call) and isinstance(v.func, ast.Attribute) and \
             v.func.attr == 'get' and v.args and \
             isinstance(v.args[0], ast.Constant) and \
-            v.args[0].value == 'pilot' and isinstance(v.func.value, ast.Name):
+            v.args[0].value == key and isinstance(v.func.value, ast.Name):
         return v.func.value.id
     if isinstance(v, ast.Subscript) and isinstance(v.slice, ast.Constant) and \
-            v.slice.value == 'pilot' and isinstance(v.value, ast.Name):
+            v.slice.value == key and isinstance(v.value, ast.Name):
         return v.value.id
     return None
+
+
+def _pilot_key_read(v):
+    """task's own pilot: X.get('pilot') / X['pilot']  ->  X name"""
+    return _key_read(v, 'pilot')
 
 
 def _only_unbound_callers(prog, f, g, node):
@@ -1336,11 +1373,9 @@ def _only_unbound_callers(prog, f, g, node):
     bound = False
     for a, pol, tid in guard_facts(g, node.id):
         if isinstance(a, ast.Name) and pol:
-            defs, undef = defs_reaching(g, a.id, tid)
-            if not undef and defs and all(
-                    d.kind == 'stmt' and isinstance(d.ast, ast.Assign) and
-                    _pilot_key_read(d.ast.value) is not None for d in defs):
-                tv = _pilot_key_read(defs[0].ast.value)
+            kf = _field_of(g, a, tid)
+            if kf is not None and kf[0] == 'ok' and kf[3] == 'pilot':
+                tv = kf[1]
                 h = enclosing_for(g, node, tv)
                 if h is not None and isinstance(h.iter, ast.Name) and \
                         h.iter.id == params[0]:
@@ -1381,12 +1416,10 @@ def _only_unbound_callers(prog, f, g, node):
                             okay = False
                             for a, pol, tid in guard_facts(mg, n.id):
                                 if isinstance(a, ast.Name) and not pol:
-                                    ds, ud = defs_reaching(mg, a.id, tid)
-                                    if not ud and ds and all(
-                                            d.kind == 'stmt' and
-                                            isinstance(d.ast, ast.Assign) and
-                                            _pilot_key_read(d.ast.value) ==
-                                            cc.args[0].id for d in ds):
+                                    kf = _field_of(mg, a, tid)
+                                    if kf is not None and kf[0] == 'ok' and \
+                                            kf[3] == 'pilot' and \
+                                            kf[1] == cc.args[0].id:
                                         okay = True
                             if not okay:
                                 return False
@@ -2845,6 +2878,644 @@ def r12_7(prog, rep, rid='R12.7'):
 
 
 # ------------------------------------------------------------------------------
+# R12.10  a task that names a pilot goes to that pilot: key agreement between
+#         the early pool, the pilot table and the pilot object handed on
+#
+def _binding_defs(g, name, at):
+    """the definitions of the local `name` in force at node `at` (-1 stands
+    for the value the function was entered with: a parameter)"""
+    defs, undef = defs_reaching(g, name, at)
+    return frozenset([d.id for d in defs] + ([-1] if undef else []))
+
+
+def _takes_effect(g, n):
+    """successors on which the definition made by node n is in force (a for
+    head binds its target on the `iter` edge only)"""
+    if n.kind == 'for':
+        return [e.dst for e in g.succ[n.id] if e.label == 'iter']
+    return nsucc(g, n.id)
+
+
+def _defn_text(n):
+    if n.kind == 'for':
+        return 'for %s in %s' % (unparse(n.ast.target), short(n.ast.iter, 30))
+    return short(n.ast, 40)
+
+
+def _rebound_before(g, name, frm, to, stop=()):
+    """a definition of the local `name` can take effect on a path from (after)
+    node `frm` to node `to` which enters no node of `stop`: the node"""
+    stop = set(stop) - {to}
+    live = g.reachable(nsucc(g, frm), skip_nodes=stop)
+    for n in g.nodes:
+        if name in stores_of(n) and n.id in live and \
+                to in g.reachable(_takes_effect(g, n), skip_nodes=stop):
+            return n
+    return None
+
+
+def _any_key_read(v):
+    """X[c] / X.get(c) for a local X and a constant string c  ->  (X, c)"""
+    k = None
+    if isinstance(v, ast.Subscript):
+        k = v.slice
+    elif isinstance(v, ast.Call) and isinstance(v.func, ast.Attribute) and \
+            v.func.attr == 'get' and v.args:
+        k = v.args[0]
+    if isinstance(k, ast.Constant) and isinstance(k.value, str):
+        x = _key_read(v, k.value)
+        if x is not None:
+            return (x, k.value)
+    return None
+
+
+def _field_of(g, expr, at, depth=3):
+    """What the expression denotes at node `at`:
+    ('ok', X, defs, c)     the field c of the dict bound to the local X by the
+                           definitions `defs` - read on the spot, or through
+                           locals `k = X[c]` after which X is not bound again
+    ('stale', X, n, c, k)  a local k that was read from X[c] before node n
+                           bound X to another object: a field of an earlier X
+    None                   something else"""
+    if depth <= 0:
+        return None
+    x = _any_key_read(expr)
+    if x is not None:
+        return ('ok', x[0], _binding_defs(g, x[0], at), x[1])
+    if isinstance(expr, ast.Call):
+        e = _getter_expr(g, expr)
+        return _field_of(g, e, at, depth - 1) if e is not None else None
+    if not isinstance(expr, ast.Name):
+        return None
+    defs, undef = defs_reaching(g, expr.id, at)
+    if not defs:
+        return None
+    # (a path on which the local is not bound at all ends in a NameError or
+    # is infeasible: the paths on which it is bound decide)
+    kdefs = {n.id for n in g.nodes if expr.id in stores_of(n)}
+    res = set()
+    for d in defs:
+        v = assigned_value(d.ast, expr.id) if d.kind == 'stmt' else None
+        if isinstance(v, ast.Constant) and v.value is None and len(defs) > 1:
+            continue                # `k = None`: no id at all on that path
+        r = _field_of(g, v, d.id, depth - 1) if v is not None else None
+        if r is None or r[0] == 'stale':
+            return r
+        n = _rebound_before(g, r[1], d.id, at, stop=kdefs)
+        if n is not None:
+            return ('stale', r[1], n, r[3], expr.id)
+        res.add(r[1:])
+    if len({(x, c) for x, _, c in res}) != 1:
+        return None
+    x, _, c = list(res)[0]
+    return ('ok', x, frozenset().union(*[ds for _, ds, _ in res]), c)
+
+
+def _early_key(g, e, at):
+    """(key expr, popped) if e reads the entry of one key of self._early:
+    self._early[K], .get(K[, d]), .pop(K[, d]), a copy of it, `<that> or []`"""
+    e = strip_copy(e)
+    if isinstance(e, ast.BoolOp) and isinstance(e.op, ast.Or):
+        e = strip_copy(e.values[0])
+
+    def early(x):
+        return is_self_attr(resolve_local(g, x, at), '_early')
+    if isinstance(e, ast.Subscript) and not isinstance(e.slice, ast.Slice) \
+            and early(e.value):
+        return (e.slice, False)
+    if isinstance(e, ast.Call) and isinstance(e.func, ast.Attribute) and \
+            e.func.attr in ('get', 'pop') and e.args and early(e.func.value):
+        return (e.args[0], e.func.attr == 'pop')
+    return None
+
+
+def _early_reads(g, lv):
+    """[(key expr, node id of the read, popped)] if the loop view iterates the
+    entry of one key of self._early (directly or through a local bound to
+    it); [] if it iterates something else; None if only on some paths"""
+    r = _early_key(g, lv.iter, lv.id)
+    if r is not None:
+        return [(r[0], lv.id, r[1])]
+    it = strip_copy(lv.iter)
+    if not isinstance(it, ast.Name):
+        return []
+    defs, undef = defs_reaching(g, it.id, lv.id)
+    out = []
+    for d in defs:
+        v = assigned_value(d.ast, it.id) if d.kind == 'stmt' else None
+        r = _early_key(g, v, d.id) if v is not None else None
+        if r is not None:
+            out.append((r[0], d.id, r[1]))
+    if out and (undef or len(out) != len(defs)):
+        return None
+    return out
+
+
+def _early_drains(g):
+    """[(node, key expr)]: statements which remove the entry of one key from
+    self._early"""
+    out = []
+    for n in g.nodes:
+        if n.kind != 'stmt' or n.ast is None:
+            continue
+        a = n.ast
+
+        def early(x):
+            return is_self_attr(resolve_local(g, x, n.id), '_early')
+        if isinstance(a, ast.Delete):
+            for t in a.targets:
+                if isinstance(t, ast.Subscript) and early(t.value):
+                    out.append((n, t.slice))
+        if isinstance(a, ast.Assign) and is_empty_ctor(a.value):
+            for t in a.targets:
+                if isinstance(t, ast.Subscript) and early(t.value) and \
+                        not isinstance(t.slice, ast.Slice):
+                    out.append((n, t.slice))
+        for c in calls_in(a):
+            if isinstance(c.func, ast.Attribute) and c.func.attr == 'pop' and \
+                    c.args and early(c.func.value):
+                out.append((n, c.args[0]))
+    return out
+
+
+def _early_puts(g):
+    """[(node, key expr, task expr)]: statements which put a task into the
+    entry of one key of self._early"""
+    out = []
+    for n in g.nodes:
+        if n.kind != 'stmt' or n.ast is None:
+            continue
+        a = n.ast
+
+        def entry(x):
+            r = _early_key(g, x, n.id)
+            if r is not None:
+                return r[0]
+            if isinstance(x, ast.Call) and isinstance(x.func, ast.Attribute) \
+                    and x.func.attr == 'setdefault' and x.args and \
+                    is_self_attr(resolve_local(g, x.func.value, n.id),
+                                 '_early'):
+                return x.args[0]
+            return None
+
+        def listed(v):
+            """tasks in the list displays of a value (`old + [task]`)"""
+            return [x.elts[0] for x in walk(v) if isinstance(x, ast.List) and
+                    len(x.elts) == 1]
+        for c in calls_in(a):
+            if isinstance(c.func, ast.Attribute) and \
+                    c.func.attr in ('append', 'add') and len(c.args) == 1:
+                k = entry(c.func.value)
+                if k is not None:
+                    out.append((n, k, c.args[0]))
+        if isinstance(a, ast.AugAssign) and isinstance(a.op, ast.Add):
+            k = entry(a.target)
+            for t in listed(a.value) if k is not None else []:
+                out.append((n, k, t))
+        if isinstance(a, ast.Assign):
+            for t in a.targets:
+                k = entry(t) if isinstance(t, ast.Subscript) else None
+                for x in listed(a.value) if k is not None else []:
+                    out.append((n, k, x))
+    return out
+
+
+def r12_10(prog, rep, rid='R12.10'):
+    rep.rule(rid, 'early binding agrees on the pilot: the tasks read from '
+             'self._early[K] are assigned to the pilot whose uid is K (and '
+             'that entry is the one removed); a task is parked under, and '
+             'looked up in self._pilots by, its own task[\'pilot\']',
+             minimum=3)
+    seen = set()
+    for rel, cname in (BASE, RR, BF):
+        K = prog.cls(rel, cname)
+        for mname, f in sorted(K.methods.items()):
+            if id(f.node) in seen:
+                continue
+            seen.add(id(f.node))
+            if not any(isinstance(x, ast.Attribute) and
+                       x.attr in ('_early', '_assign_pilot')
+                       for x in ast.walk(f.node)):
+                continue
+            g = cfg_of(f)
+            smap = I.stmt_node_map(g)
+            _early_sites(rep, rid, cname, f, g, smap)
+            _own_pilot_sites(rep, rid, cname, f, g, smap)
+
+
+def _same_key(g, a, at_a, b, at_b, fa=None):
+    """the key expressions a (at node at_a) and b (at node at_b) denote the
+    same pilot id: True / False / None (cannot tell)"""
+    if isinstance(a, ast.Name) and isinstance(b, ast.Name) and a.id == b.id \
+            and _binding_defs(g, a.id, at_a) == _binding_defs(g, b.id, at_b) \
+            and _rebound_before(g, a.id, at_a, at_b, stop={at_a}) is None:
+        return True                 # one local, not bound again in between
+    fa = fa or _field_of(g, a, at_a)
+    fb = _field_of(g, b, at_b)
+    if fa is not None and fb is not None:
+        if fa[0] != 'ok' or fb[0] != 'ok':
+            return False
+        return fa[1:] == fb[1:] and \
+            _rebound_before(g, fa[1], at_a, at_b, stop={at_a}) is None
+    if isinstance(a, ast.Name) and isinstance(b, ast.Name) and a.id == b.id:
+        return False
+    return None
+
+
+def _table_key(g, v, at):
+    """K if v is self._pilots[K]['pilot'] - K as written, if the expression
+    has that form itself, else as it is after resolving locals and getters"""
+    k = pilot_entry(v, 'pilot')
+    if k is None:
+        k = pilot_entry(resolve_local(g, v, at), 'pilot')
+    return k
+
+
+def _early_sites(rep, rid, cname, f, g, smap):
+    hist = ('tasks t1 (names pilot p1) and t2 (names p2) are submitted before '
+            'any pilot is known; one add_pilots command carries [p1, p2]: '
+            't2 is forwarded with the id and the sandboxes of p1, t1 is never '
+            'forwarded')
+    drains = _early_drains(g)
+    for c in assign_calls(f):
+        node = smap.get(id(c))
+        T, P = assign_task_arg(c), assign_pilot_arg(c)
+        if node is None or not isinstance(T, ast.Name) or P is None:
+            continue
+        lv = enclosing_for(g, node, T.id)
+        if lv is None:
+            continue
+        reads = _early_reads(g, lv)
+        if reads is None:
+            raise AnalysisError('UNRECOGNISED-IDIOM %s: `%s` iterates an '
+                                'entry of self._early on some paths only'
+                                % (f.where, lv.header))
+        for key, rid_node, popped in reads:
+            rep.saw(f)
+            kf = _field_of(g, key, rid_node)
+            if kf is not None and kf[3] != 'uid':
+                kf = None           # not the id of a pilot document
+            where = '%s.%s' % (cname, f.name)
+            verdict, why = None, ''
+            if kf is not None and kf[0] == 'stale':
+                verdict = False
+                why = ('%r was read from %s[\'uid\'] before `%s` bound %r to '
+                       'another pilot: it is the uid of an earlier pilot '
+                       '(the last one of the preceding loop)'
+                       % (kf[4], kf[1], _defn_text(kf[2]), kf[1]))
+            elif kf is not None and isinstance(P, ast.Name):
+                it = strip_copy(lv.iter)
+                astop = {rid_node} | ({n.id for n in g.nodes
+                                       if it.id in stores_of(n)}
+                                      if isinstance(it, ast.Name) else set())
+                same = kf[1] == P.id and \
+                    kf[2] == _binding_defs(g, P.id, node.id) and \
+                    _rebound_before(g, P.id, rid_node, node.id,
+                                    stop=astop) is None
+                verdict = same
+                why = 'the key is the uid of %r, the pilot handed on is %r%s' \
+                    % (kf[1], P.id, '' if kf[1] != P.id else
+                       ' as bound by another statement')
+            else:
+                # the pilot object is looked up in the table by the same key
+                ks = []
+                if isinstance(P, ast.Name):
+                    pd, undef = defs_reaching(g, P.id, node.id)
+                    for dn in pd:
+                        v = assigned_value(dn.ast, P.id) \
+                            if dn.kind == 'stmt' else None
+                        k = _table_key(g, v, dn.id) if v is not None else None
+                        ks.append((k, dn.id))
+                    if undef:
+                        ks.append((None, node.id))
+                else:
+                    ks.append((_table_key(g, P, node.id), node.id))
+                if ks and all(k is not None for k, _ in ks):
+                    vs = [_same_key(g, key, rid_node, k, at, kf)
+                          for k, at in ks]
+                    if None not in vs:
+                        verdict = all(vs)
+                        why = 'the pilot object is self._pilots[%s][\'pilot\']' \
+                            % unparse(ks[0][0])
+            if verdict is None:
+                raise AnalysisError(
+                    'UNRECOGNISED-IDIOM %s: cannot relate the key `%s` of the '
+                    'early pool to the pilot `%s` of `%s`'
+                    % (f.where, unparse(key), unparse(P), short(c, 50)))
+            rep.check(verdict, rid, f, '%s: the tasks of self._early[%s] are '
+                      'assigned to the pilot with that uid (`%s`)'
+                      % (where, unparse(key), short(c, 40)),
+                      construct='%s [key of the early pool is the uid of the '
+                      'pilot]' % short(c, 60),
+                      message='%s: the tasks waiting in self._early[%s] are '
+                      'handed to `%s`, but %s is not the uid of that pilot '
+                      'object: %s.  Tasks which name one pilot are bound to '
+                      '(and get the sandboxes of) another one, and the tasks '
+                      'which name this pilot stay in the pool'
+                      % (where, unparse(key), short(c, 50), unparse(key), why),
+                      loc=f.loc(c), history=hist)
+            if popped:
+                rep.ok(rid, f, '%s: the entry self._early[%s] is removed by '
+                       'the read itself (pop)' % (where, unparse(key)),
+                       f.loc(g.nodes[rid_node].ast))
+                continue
+            # the entry removed on the way on is the one that was read
+            for dn, dk in drains:
+                if dn.id not in g.reachable(nsucc(g, rid_node),
+                                            skip_nodes={rid_node}):
+                    continue
+                same = _same_key(g, key, rid_node, dk, dn.id, kf)
+                if same is None:
+                    raise AnalysisError(
+                        'UNRECOGNISED-IDIOM %s: cannot relate the key of `%s` '
+                        'to the key `%s` the tasks were read with'
+                        % (f.where, short(dn.ast, 50), unparse(key)))
+                rep.check(same, rid, f, '%s: `%s` removes the entry whose '
+                          'tasks were forwarded' % (where, short(dn.ast, 40)),
+                          construct='%s [entry removed is the entry read]'
+                          % short(dn.ast, 60),
+                          message='%s: the tasks forwarded were read from '
+                          'self._early[%s], but `%s` removes the entry of '
+                          'another key: the forwarded tasks stay in the pool '
+                          '(forwarded again when the pilot is re-added) and '
+                          'the waiting tasks of the other pilot are lost'
+                          % (where, unparse(key), short(dn.ast, 50)),
+                          loc=f.loc(dn.ast),
+                          history='early tasks for p1 and p2; add_pilots([p1, '
+                          'p2]); remove and re-add p1: its tasks are forwarded '
+                          'a second time, those of p2 never')
+
+
+def _own_pilot_sites(rep, rid, cname, f, g, smap):
+    where = '%s.%s' % (cname, f.name)
+    # tasks parked until their pilot is added
+    for n, key, t in _early_puts(g):
+        rep.saw(f)
+        kf = _field_of(g, key, n.id)
+        if kf is None or not isinstance(t, ast.Name):
+            raise AnalysisError('UNRECOGNISED-IDIOM %s: `%s` parks `%s` under '
+                                'a key the recogniser cannot trace to a task'
+                                % (f.where, short(n.ast, 50), unparse(t)))
+        okay = kf[0] == 'ok' and kf[1] == t.id and kf[3] == 'pilot' and \
+            kf[2] == _binding_defs(g, t.id, n.id)
+        rep.check(okay, rid, f, '%s: `%s` parks the task under its own '
+                  'task[\'pilot\']' % (where, short(n.ast, 40)),
+                  construct='%s [parked under the task\'s own pilot id]'
+                  % short(n.ast, 60),
+                  message='%s: `%s` keeps %r in self._early under `%s`, which '
+                  'is not the \'pilot\' entry of that task (%s): when the '
+                  'named pilot is added the task is not found (it waits '
+                  'forever) or it is forwarded to the pilot another task named'
+                  % (where, short(n.ast, 50), t.id, unparse(key),
+                     'it is %s[%r]' % (kf[1], kf[3]) if kf[0] == 'ok' else
+                     'read before `%s` moved on to the next task'
+                     % _defn_text(kf[2])),
+                  loc=f.loc(n.ast),
+                  history='work([t1 naming p1, t2 naming p2]) before any pilot '
+                  'is added, then add_pilots([p1]): t1 is not forwarded to p1 '
+                  '(or t2 is)')
+    # the pilot object of a task that names its pilot
+    for c in assign_calls(f):
+        node = smap.get(id(c))
+        T, P = assign_task_arg(c), assign_pilot_arg(c)
+        if node is None or not isinstance(T, ast.Name) or P is None:
+            continue
+        ks = []
+        pstop = set()
+        if isinstance(P, ast.Name):
+            # (the lookup at dn is in force at the call on paths which bind
+            # the pilot local no more)
+            pstop = {n.id for n in g.nodes if P.id in stores_of(n)}
+            for dn in defs_reaching(g, P.id, node.id)[0]:
+                v = assigned_value(dn.ast, P.id) if dn.kind == 'stmt' else None
+                k = pilot_entry(resolve_local(g, v, dn.id), 'pilot') \
+                    if v is not None else None
+                if k is not None:
+                    ks.append((k, v, dn.id))
+        else:
+            k = pilot_entry(resolve_local(g, P, node.id), 'pilot')
+            if k is not None:
+                ks.append((k, P, node.id))
+        for k, v, at in ks:
+            # the key as written at the lookup (a local) or as resolved
+            kf = None
+            for cand in [x for x in walk(v) if isinstance(x, ast.Name)] + [k]:
+                kf = kf or _field_of(g, cand, at)
+            if kf is None or kf[1] != T.id:
+                continue            # a scheduling decision (R12.1, R12.8)
+            rep.saw(f)
+            okay = kf[0] == 'ok' and kf[3] == 'pilot' and \
+                kf[2] == _binding_defs(g, T.id, node.id) and \
+                _rebound_before(g, T.id, at, node.id, stop=pstop | {at}) \
+                is None
+            rep.check(okay, rid, f, '%s: the pilot object of `%s` is looked '
+                      'up by the task\'s own task[\'pilot\']'
+                      % (where, short(c, 40)),
+                      construct='%s [pilot looked up by the task\'s own '
+                      'pilot id]' % short(c, 60),
+                      message='%s: `%s` binds %r to self._pilots[%s]'
+                      '[\'pilot\'], and %s is not the \'pilot\' entry of that '
+                      'task: a task that names a pilot is bound to a '
+                      'different one' % (where, short(c, 50), T.id, unparse(k),
+                                         unparse(k)),
+                      loc=f.loc(c),
+                      history='work([t1 naming p1, t2 naming p2]) with both '
+                      'pilots added: t2 goes to p1')
+
+
+# ------------------------------------------------------------------------------
+# R12.11  Backfilling releases the cores of a task when it has left
+#         AGENT_EXECUTING, not before, and for every final state
+#
+STATES = 'states.py'
+
+
+def _reads_task_state(g, e, at, tvars):
+    """the (resolved) expression contains a read of the loop task's 'state'"""
+    return any(_key_read(x, 'state') in tvars for x in walk(e)
+               if isinstance(x, (ast.Subscript, ast.Call)))
+
+
+def _state_operand(prog, f, g, e, at, tvars, s, values, depth=0):
+    """python value of the operand when the task of the loop is in state s:
+    the state name itself, a state value, a folded constant - or UNKNOWN"""
+    if depth > 6:
+        return UNKNOWN
+    d = depth + 1
+    if _key_read(e, 'state') in tvars:
+        return s
+    if isinstance(e, ast.Call) and len(e.args) == 1 and not e.keywords and \
+            dotted(e.func).split('.')[-1] == '_task_state_value':
+        callee = prog.resolve(f.module, e.func)
+        if not callee or callee[0] != 'func':
+            return UNKNOWN
+        v = _state_operand(prog, f, g, e.args[0], at, tvars, s, values, d)
+        try:
+            return values.get(v, UNKNOWN) if v is not UNKNOWN else UNKNOWN
+        except TypeError:
+            return UNKNOWN
+    if isinstance(e, ast.Subscript) and \
+            dotted(e.value).split('.')[-1] == '_task_state_values' and \
+            prog.fold(f.module, e.value, f.cls) == values:
+        v = _state_operand(prog, f, g, e.slice, at, tvars, s, values, d)
+        try:
+            return values.get(v, UNKNOWN) if v is not UNKNOWN else UNKNOWN
+        except TypeError:
+            return UNKNOWN
+    if isinstance(e, ast.BinOp) and isinstance(e.op, (ast.Add, ast.Sub)):
+        l = _state_operand(prog, f, g, e.left, at, tvars, s, values, d)
+        r = _state_operand(prog, f, g, e.right, at, tvars, s, values, d)
+        if isinstance(l, int) and isinstance(r, int):
+            return l + r if isinstance(e.op, ast.Add) else l - r
+        return UNKNOWN
+    if _reads_task_state(g, e, at, tvars):
+        return UNKNOWN
+    v = prog.fold(f.module, e, f.cls)
+    if v is UNKNOWN and isinstance(e, ast.Name) and \
+            e.id in f.module.assigns and len(f.module.assigns[e.id]) == 1 and \
+            not [n for n in g.nodes if e.id in stores_of(n)]:
+        # a module level constant computed from the state table
+        return _state_operand(prog, f, g, f.module.assigns[e.id][0], at,
+                              tvars, s, values, d)
+    return v
+
+
+_CMP = {ast.Lt: lambda a, b: a < b, ast.LtE: lambda a, b: a <= b,
+        ast.Gt: lambda a, b: a > b, ast.GtE: lambda a, b: a >= b,
+        ast.Eq: lambda a, b: a == b, ast.NotEq: lambda a, b: a != b,
+        ast.In: lambda a, b: a in b, ast.NotIn: lambda a, b: a not in b,
+        ast.Is: lambda a, b: a is b or a == b,
+        ast.IsNot: lambda a, b: not (a is b or a == b)}
+
+
+def _state_atom(prog, f, g, atom, at, tvars, s, values):
+    """truth of the guard atom for a task in state s: True / False; None if
+    the atom does not read the task's state; UNKNOWN if it does in a way the
+    recogniser cannot evaluate"""
+    ra = resolve_local(g, atom, at)
+    if not _reads_task_state(g, ra, at, tvars):
+        return None
+    if not isinstance(ra, ast.Compare):
+        return UNKNOWN
+    vals = [_state_operand(prog, f, g, x, at, tvars, s, values)
+            for x in [ra.left] + list(ra.comparators)]
+    if any(v is UNKNOWN for v in vals):
+        return UNKNOWN
+    try:
+        return all(_CMP[type(op)](a, b)
+                   for op, a, b in zip(ra.ops, vals, vals[1:]))
+    except (TypeError, KeyError):
+        return UNKNOWN
+
+
+def r12_11(prog, rep, rid='R12.11'):
+    rep.rule(rid, "Backfilling.update_tasks debits info['used'] for a task "
+             'state notification only if the task has left AGENT_EXECUTING '
+             '(its cores are free), and for every final state', minimum=2)
+    fu = prog.method(BF[0], BF[1], 'update_tasks')
+    rep.saw(fu)
+    values = prog.const(STATES, '_task_state_values')
+    busy   = prog.const(STATES, 'AGENT_EXECUTING')
+    final  = prog.const(STATES, 'FINAL')
+    if not isinstance(values, dict) or busy not in values or \
+            not isinstance(final, list) or any(s not in values for s in final):
+        raise AnalysisError('anchor %s::_task_state_values / AGENT_EXECUTING / '
+                            'FINAL cannot be folded' % STATES)
+    db = _usage_updates(prog, fu, ast.Sub)
+    if not db:
+        raise AnalysisError("UNRECOGNISED-IDIOM %s: debit of info['used'] not "
+                            'found' % fu.where)
+    for d, dexpr, g in db:
+        h = None
+        for hh in reversed(d.loops):
+            if hh in loop_views(g):
+                h = loop_views(g)[hh]
+                break
+        if h is None:
+            raise AnalysisError('UNRECOGNISED-IDIOM %s: debit outside of a '
+                                'loop over tasks' % fu.where)
+        tvars = set(h.names)
+        facts = guard_facts(g, d.id, start=iter_start(g, h.id))
+        admitted = []
+        for s in values:
+            ok = True
+            for a, pol, tid in facts:
+                v = _state_atom(prog, fu, g, a, tid, tvars, s, values)
+                if v is UNKNOWN:
+                    raise AnalysisError(
+                        'UNRECOGNISED-IDIOM %s: the debit `%s` is guarded by '
+                        '`%s`, a test of the task state the recogniser cannot '
+                        'evaluate' % (fu.where, short(d.ast, 40), short(a, 60)))
+                if v is not None and v != pol:
+                    ok = False
+            if ok:
+                admitted.append(s)
+        early = sorted((s for s in admitted if values[s] <= values[busy]),
+                       key=lambda s: values[s])
+        rep.check(not early, rid, fu, "Backfilling: `%s` is reached only for "
+                  'task states beyond %s' % (short(d.ast, 40), busy),
+                  construct='%s [only after %s]' % (short(d.ast, 70), busy),
+                  message="Backfilling.update_tasks: the debit `%s` is reached "
+                  'for a notification with task state %s, in which the task '
+                  'has not yet released its cores (it occupies them up to and '
+                  "including %s): info['used'] drops while the cores are "
+                  'busy, the uid lands in info[\'done\'] (the real completion '
+                  'is then ignored), and the reschedule that follows '
+                  'backfills waiting tasks onto a pilot which is really at '
+                  'its high-water mark'
+                  % (short(d.ast, 50), ' / '.join(str(s) for s in early[-3:]),
+                     busy), loc=fu.loc(d.ast),
+                  history='pilot with 2 cores (hwm 4), three tasks of 2 cores '
+                  '(the third waits); notification %s for the first task: '
+                  'used drops to 2 and the third task is assigned although '
+                  'both running tasks still hold their cores'
+                  % (early[-1] if early else busy))
+        missing = [s for s in final if s not in admitted]
+        rep.check(not missing, rid, fu, "Backfilling: `%s` is reached for "
+                  'every final task state' % short(d.ast, 40),
+                  construct='%s [every final state]' % short(d.ast, 70),
+                  message="Backfilling.update_tasks: the debit `%s` is not "
+                  'reached for a task that ends in %s: the cores of such a '
+                  "task are never given back, info['used'] does not return to "
+                  'zero when all tasks have finished and the pilot stays at '
+                  'its high-water mark' % (short(d.ast, 50),
+                                           ' / '.join(missing)),
+                  loc=fu.loc(d.ast),
+                  history='a task is assigned to a pilot and ends in %s: '
+                  "info['used'] keeps its cores for ever"
+                  % (missing[0] if missing else 'FAILED'))
+
+
+# ------------------------------------------------------------------------------
+# R12.12  sandbox derivation of _assign_pilot: the URLs a Session keeps in its
+#         cache are copied before they are extended (R11.6b re-evaluated)
+#
+def r12_12(prog, rep, rid='R12.12'):
+    from . import c11
+    f = prog.method(BASE[0], BASE[1], '_assign_pilot')
+    getters = c11.cached_getters(prog, prog.cls(*c11.SESSION))
+    used = {c.func.attr for c in calls_in(f.node)
+            if isinstance(c.func, ast.Attribute) and c.func.attr in getters}
+    if not used:
+        raise AnalysisError('UNRECOGNISED-IDIOM %s: _assign_pilot derives no '
+                            'sandbox from a cached getter of Session (%s)'
+                            % (f.where, sorted(used)))
+    n0 = len(rep.findings)
+    c11.r11_6b(prog, rep, rid=rid)
+    for fd in rep.findings[n0:]:
+        if fd.rule == rid:
+            fd.message += (' [C12: _assign_pilot takes the sandboxes of a task '
+                           'from these getters (%s): the second pilot on the '
+                           'same resource gets a sandbox nested in that of '
+                           'the first, and tasks bound to one pilot carry the '
+                           'sandboxes of another]' % ', '.join(sorted(used)))
+            fd.history = ('two pilots p1, p2 on one resource (pilot_sandbox '
+                          'not yet resolved), RoundRobin, four tasks: the '
+                          'tasks of p2 get .../p1/p2/<task> and the session '
+                          'sandbox of all later tasks is .../p1/')
+
+
+# ------------------------------------------------------------------------------
 #
 def run(prog, rep, tier):
     rep.decided = ('the pilot bound by both _schedule_tasks derives from '
@@ -2896,7 +3567,7 @@ def run(prog, rep, tier):
     # a rule that does not know the shape of its anchors stops the analysis
     # (exit 2) unless another rule has a finding (main._try)
     for rule in (r12_1, r12_2, r12_3, sites, r12_5, r12_6, r12_7, r12_8,
-                 r12_9):
+                 r12_9, r12_10, r12_11, r12_12):
         rep.attempt(rule, prog, rep)
     if tier == 'thorough':
         rep.rule('R12.4s', 'sweep of R12.4 over every class of the package that '
@@ -3375,4 +4046,223 @@ MUTATIONS += [
          edits=_swap(_S_R6, _B_HELP, _B_REC.replace("        if record is None:\n", "        if record is None or record['role'] != ADDED:\n") + _B_HELP)),
     dict(name='R12.1 r6 shape: role not stored for added pilots', rules=('R12.1',),
          edits=_swap(_S_R6, _B_ADD, _B_R6ADD + "                    record['pilot'] = pilot\n")),
+]
+
+
+# ------------------------------------------------------------------------------
+# R12.10 / R12.11 / R12.12: small single-site changes (corpus g1, g5, g6) and
+# behaviour-preserving rewrites of the sites those rules look at
+#
+_S = 'session.py'
+_B_L2 = ("                for pilot in pilots:\n\n"
+         "                    pid = pilot['uid']\n\n"
+         "                    # if we have any early_bound tasks waiting for this pilots,\n"
+         "                    # advance them now\n"
+         "                    early_tasks = self._early.get(pid)\n"
+         "                    if early_tasks:\n\n"
+         "                        for task in early_tasks:\n"
+         "                            self._assign_pilot(task, pilot)\n\n"
+         "                        self.advance(early_tasks, rps.TMGR_STAGING_INPUT_PENDING,\n"
+         "                                     publish=True, push=True)\n\n"
+         "                        # these tasks are on their way now: forget them, or\n"
+         "                        # a pilot which gets removed and added again would\n"
+         "                        # receive them a second time\n"
+         "                        del self._early[pid]\n")
+_B_PARK = ("                        if pid not in self._early:\n"
+           "                            self._early[pid] = list()\n"
+           "                        self._early[pid].append(task)\n")
+_F_EARLY = ("                if  rps._task_state_value(state) <= \\\n"
+            "                    rps._task_state_value(rps.AGENT_EXECUTING):\n"
+            "                    self._log.debug('upd task %s too early', uid)\n"
+            "                    continue\n")
+_F_REST = ("                if uid not in info['tasks']:\n"
+           "                    # this contradicts the task's assignment\n"
+           "                    self._log.debug('upd task  %s not in tasks', uid)\n"
+           "                    self._log.error('bf: task %s on %s inconsistent', uid, pid)\n"
+           "                    raise RuntimeError('inconsistent scheduler state')\n\n"
+           "                # this task is now considered done\n"
+           "                info['done'].append(uid)\n"
+           "                info['used'] -= task['description']['ranks'] \\\n"
+           "                              * task['description']['cores_per_rank']\n"
+           "                reschedule = True\n"
+           "                self._log.debug('upd task %s - schedule (used: %s)',\n"
+           "                                uid, info['used'])\n\n"
+           "                if info['used'] < 0:\n"
+           "                    self._log.error('bf: pilot %s inconsistent', pid)\n"
+           "                    raise RuntimeError('inconsistent scheduler state')\n")
+_S_PSB = ("                session_sandbox     = self._get_session_sandbox(pilot)\n"
+          "                pilot_sandbox       = ru.Url(session_sandbox)\n"
+          "                pilot_sandbox.path += '/%s/' % pilot['uid']\n")
+_S_SSB = ("                resource_sandbox      = self._get_resource_sandbox(pilot)\n"
+          "                session_sandbox       = ru.Url(resource_sandbox)\n"
+          "                session_sandbox.path += '/%s' % self.uid\n")
+
+
+def _indent(text, n):
+    return ''.join((' ' * n + l if l.strip() else l)
+                   for l in text.splitlines(True))
+
+
+MUTATIONS += [
+    dict(name='R12.10 corpus g1: pid of the early-task loop is the stale pid of the loop before',
+         rules=('R12.10',), edits=[
+        (_B, "                    pid = pilot['uid']\n\n                    # if we have any early_bound", "                    # if we have any early_bound")]),
+    dict(name='R12.10 uid of the pilot read only after the early tasks were looked up',
+         rules=('R12.10',), edits=[
+        (_B, "                    pid = pilot['uid']\n\n                    # if we have any early_bound tasks waiting for this pilots,\n                    # advance them now\n                    early_tasks = self._early.get(pid)\n",
+             "                    # if we have any early_bound tasks waiting for this pilots,\n                    # advance them now\n                    early_tasks = self._early.get(pid)\n                    pid = pilot['uid']\n")],
+         note='statement moved: the lookup uses the uid of the previous pilot, the removal that of the current one'),
+    dict(name='R12.10 early-task loop uses its own variable, assigns the pilot of the loop before',
+         rules=('R12.10',), edits=[
+        (_B, "                for pilot in pilots:\n\n                    pid = pilot['uid']\n\n                    # if we have any early_bound",
+             "                for p in pilots:\n\n                    pid = p['uid']\n\n                    # if we have any early_bound")]),
+    dict(name='R12.10 the early entry removed is that of the last pilot of the command',
+         rules=('R12.10',), edits=[
+        (_B, "                        del self._early[pid]\n", "                        del self._early[last['uid']]\n"),
+        (_B, "                for pilot in pilots:\n\n                    pid = pilot['uid']\n\n                    # if we have any early_bound",
+             "                last = pilots[-1]\n                for pilot in pilots:\n\n                    pid = pilot['uid']\n\n                    # if we have any early_bound")]),
+    dict(name='R12.10 work parks an early-bound task under its own uid', rules=('R12.10',), edits=[
+        (_B, _B_PARK, _B_PARK.replace('[pid]', '[uid]').replace('if pid not', 'if uid not'))]),
+    dict(name='R12.10 work looks the pilot of an early-bound task up by the task uid', rules=('R12.10',), edits=[
+        (_B, _EARLY, _EARLY.replace('.get(pid, {})', '.get(uid, {})'))]),
+    dict(name='R12.10 RoundRobin._work looks the pilot up by the task uid', rules=('R12.10',), edits=[
+        (_R, "                    pilot = self._pilots[pid]['pilot']\n\n                    self._assign_pilot(task, pilot)\n                    scheduled.append(task)\n",
+             "                    pilot = self._pilots[uid]['pilot']\n\n                    self._assign_pilot(task, pilot)\n                    scheduled.append(task)\n")]),
+    dict(name='R12.11 corpus g5: cores released when the task starts to execute (<= -> <)',
+         rules=('R12.11',), edits=[
+        (_F, "                if  rps._task_state_value(state) <= \\\n", "                if  rps._task_state_value(state) < \\\n")]),
+    dict(name='R12.11 release threshold one state early (<= AGENT_EXECUTING_PENDING)',
+         rules=('R12.11',), edits=[
+        (_F, "                    rps._task_state_value(rps.AGENT_EXECUTING):\n", "                    rps._task_state_value(rps.AGENT_EXECUTING_PENDING):\n")]),
+    dict(name='R12.11 too-early test dropped', rules=('R12.11',), edits=[
+        (_F, _F_EARLY + "\n", "")]),
+    dict(name='R12.11 too-early test as positive guard with >=', rules=('R12.11',), edits=[
+        (_F, _F_EARLY + "\n" + _F_REST,
+             "                if  rps._task_state_value(state) >= \\\n"
+             "                    rps._task_state_value(rps.AGENT_EXECUTING):\n\n" + _indent(_F_REST, 4))]),
+    dict(name='R12.11 failed and canceled tasks never give their cores back', rules=('R12.11',), edits=[
+        (_F, _F_EARLY, _F_EARLY + "\n                if state in [rps.FAILED, rps.CANCELED]:\n                    continue\n")]),
+    dict(name='R12.12 corpus g6: pilot sandbox built on the cached session sandbox object',
+         rules=('R12.12',), edits=[
+        (_S, "                pilot_sandbox       = ru.Url(session_sandbox)\n", "                pilot_sandbox       = session_sandbox\n")]),
+    dict(name='R12.12 session sandbox built on the cached resource sandbox object',
+         rules=('R12.12',), edits=[
+        (_S, "                session_sandbox       = ru.Url(resource_sandbox)\n", "                session_sandbox       = resource_sandbox\n")]),
+    dict(name='R12.12 pilot sandbox path appended on the getter result itself',
+         rules=('R12.12',), edits=[
+        (_S, _S_PSB, "                pilot_sandbox       = self._get_session_sandbox(pilot)\n"
+                     "                pilot_sandbox.path += '/%s/' % pilot['uid']\n")]),
+]
+
+SILENT += [
+    dict(name='control_cb early loop: renamed locals', edits=[
+        (_B, _B_L2, _B_L2.replace('for pilot in pilots', 'for added in pilots').replace("pid = pilot['uid']", "added_id = added['uid']")
+                         .replace('(pid)', '(added_id)').replace('[pid]', '[added_id]').replace('(task, pilot)', '(task, added)')
+                         .replace('early_tasks', 'waiting'))]),
+    dict(name='control_cb early loop: uid read on the spot, no local', edits=[
+        (_B, _B_L2, _B_L2.replace("                    pid = pilot['uid']\n\n", "")
+                         .replace('(pid)', "(pilot['uid'])").replace('[pid]', "[pilot['uid']]"))]),
+    dict(name='control_cb early loop: early continue, entry removed before the hand-on', edits=[
+        (_B, _B_L2, "                for pilot in pilots:\n\n"
+                    "                    pid = pilot['uid']\n\n"
+                    "                    early_tasks = self._early.get(pid)\n"
+                    "                    if not early_tasks:\n"
+                    "                        continue\n\n"
+                    "                    del self._early[pid]\n\n"
+                    "                    for task in early_tasks:\n"
+                    "                        self._assign_pilot(task, pilot)\n\n"
+                    "                    self.advance(early_tasks, rps.TMGR_STAGING_INPUT_PENDING,\n"
+                    "                                 publish=True, push=True)\n")]),
+    dict(name='control_cb early loop: entry popped in the loop header', edits=[
+        (_B, _B_L2, "                for pilot in pilots:\n\n"
+                    "                    early_tasks = self._early.pop(pilot['uid'], None)\n"
+                    "                    if early_tasks:\n\n"
+                    "                        for task in early_tasks:\n"
+                    "                            self._assign_pilot(task, pilot)\n\n"
+                    "                        self.advance(early_tasks, rps.TMGR_STAGING_INPUT_PENDING,\n"
+                    "                                     publish=True, push=True)\n")]),
+    dict(name='control_cb early loop: body extracted into a helper method', edits=[
+        (_B, _B_L2, "                for pilot in pilots:\n                    self._forward_early(pilot)\n"),
+        (_B, "    # --------------------------------------------------------------------------\n    #\n    def _configure(self):\n        raise NotImplementedError",
+             "    # --------------------------------------------------------------------------\n    #\n"
+             "    def _forward_early(self, pilot):\n\n"
+             "        pid = pilot['uid']\n"
+             "        early_tasks = self._early.get(pid)\n"
+             "        if early_tasks:\n\n"
+             "            for task in early_tasks:\n"
+             "                self._assign_pilot(task, pilot)\n\n"
+             "            self.advance(early_tasks, rps.TMGR_STAGING_INPUT_PENDING,\n"
+             "                         publish=True, push=True)\n"
+             "            del self._early[pid]\n\n\n"
+             "    # --------------------------------------------------------------------------\n    #\n    def _configure(self):\n        raise NotImplementedError")]),
+    dict(name='work: early-bound task parked under task[\'pilot\'] read on the spot', edits=[
+        (_B, _B_PARK, "                        self._early.setdefault(task['pilot'], list()).append(task)\n")]),
+    dict(name='work: named pilot id held in a renamed local read by subscript after a membership test', edits=[
+        (_B, "                pid = task.get('pilot')\n\n                if pid:\n", "                pid = task['pilot'] if 'pilot' in task else None\n\n                if pid:\n")],
+         note='conditional expression: canonicalised to if/else, two definitions of pid'),
+    dict(name='update_tasks: debit as positive nested guard', edits=[
+        (_F, _F_EARLY + "\n" + _F_REST,
+             "                if  rps._task_state_value(state) > \\\n"
+             "                    rps._task_state_value(rps.AGENT_EXECUTING):\n\n" + _indent(_F_REST, 4))]),
+    dict(name='update_tasks: state values hoisted into locals', edits=[
+        (_F, _F_EARLY, "                value = rps._task_state_value(state)\n"
+                       "                limit = rps._task_state_value(rps.AGENT_EXECUTING)\n"
+                       "                if value <= limit:\n"
+                       "                    self._log.debug('upd task %s too early', uid)\n"
+                       "                    continue\n")]),
+    dict(name='update_tasks: too-early test against the state after AGENT_EXECUTING, negated strict form', edits=[
+        (_F, _F_EARLY, "                if not rps._task_state_value(state) >= \\\n"
+                       "                       rps._task_state_value(rps.AGENT_STAGING_OUTPUT_PENDING):\n"
+                       "                    self._log.debug('upd task %s too early', uid)\n"
+                       "                    continue\n")],
+         note='same set of states over the state table'),
+    dict(name='update_tasks: threshold as module constant, state table subscripted', edits=[
+        (_F, "_BF_STOP_VAL  = rps._pilot_state_value(_BF_STOP)\n",
+             "_BF_STOP_VAL  = rps._pilot_state_value(_BF_STOP)\n_BF_BUSY_VAL  = rps._task_state_values[rps.AGENT_EXECUTING]\n"),
+        (_F, _F_EARLY, "                if  rps._task_state_values[task['state']] <= _BF_BUSY_VAL:\n"
+                       "                    self._log.debug('upd task %s too early', uid)\n"
+                       "                    continue\n")]),
+    dict(name='update_tasks: too-early test in a helper method', edits=[
+        (_F, _F_EARLY, "                if self._still_busy(state):\n"
+                       "                    self._log.debug('upd task %s too early', uid)\n"
+                       "                    continue\n"),
+        (_F, "    # --------------------------------------------------------------------------\n    #\n    def update_tasks(self, tasks):\n",
+             "    # --------------------------------------------------------------------------\n    #\n"
+             "    def _still_busy(self, state):\n\n"
+             "        return rps._task_state_value(state) <= \\\n"
+             "               rps._task_state_value(rps.AGENT_EXECUTING)\n\n\n"
+             "    # --------------------------------------------------------------------------\n    #\n    def update_tasks(self, tasks):\n")]),
+    dict(name='_get_pilot_sandbox: getter result copied without a local', edits=[
+        (_S, _S_PSB, "                pilot_sandbox       = ru.Url(self._get_session_sandbox(pilot))\n"
+                     "                pilot_sandbox.path += '/%s/' % pilot['uid']\n")]),
+    dict(name='_get_pilot_sandbox: deep copy, renamed locals, path re-assigned', edits=[
+        (_S, _S_PSB, "                base      = self._get_session_sandbox(pilot)\n"
+                     "                pilot_sandbox = copy.deepcopy(base)\n"
+                     "                pilot_sandbox.path = pilot_sandbox.path + '/%s/' % pid\n")]),
+    dict(name='_get_pilot_sandbox: local re-bound to its copy before the change', edits=[
+        (_S, _S_PSB, "                pilot_sandbox       = self._get_session_sandbox(pilot)\n"
+                     "                pilot_sandbox       = ru.Url(pilot_sandbox)\n"
+                     "                pilot_sandbox.path += '/%s/' % pilot['uid']\n")]),
+    dict(name='_get_session_sandbox: getter result copied without a local', edits=[
+        (_S, _S_SSB, "                session_sandbox       = ru.Url(self._get_resource_sandbox(pilot))\n"
+                     "                session_sandbox.path += '/%s' % self.uid\n")]),
+]
+
+_B_TAB = ("                    if early_tasks:\n\n"
+          "                        for task in early_tasks:\n"
+          "                            self._assign_pilot(task, pilot)\n")
+SILENT += [
+    dict(name='control_cb early loop: pilot object taken from the table by the same pid, under role == ADDED', edits=[
+        (_B, _B_TAB, "                    if early_tasks and self._pilots[pid]['role'] == ADDED:\n\n"
+                     "                        for task in early_tasks:\n"
+                     "                            self._assign_pilot(task, self._pilots[pid]['pilot'])\n")],
+         note='the first loop stored role ADDED and the pilot object under self._pilots[pid] for every pilot of the command'),
+]
+MUTATIONS += [
+    dict(name='R12.10 early tasks handed to the table entry of the first pilot of the command', rules=('R12.10',), edits=[
+        (_B, _B_TAB, "                    if early_tasks and self._pilots[pid]['role'] == ADDED:\n\n"
+                     "                        first = pilots[0]\n"
+                     "                        fid = first['uid']\n"
+                     "                        for task in early_tasks:\n"
+                     "                            self._assign_pilot(task, self._pilots[fid]['pilot'])\n")]),
 ]
